@@ -116,6 +116,8 @@ def main() -> int:
         if os.path.exists(meta):
             import json
             mm = json.load(open(meta))
+            if str(mm.get("note", "")).startswith("SUPERSEDED"):
+                continue        # neutralised by a later fix; see its meta.json
             for pf in sorted(glob.glob(os.path.join(d, "patch*.diff"))):
                 muts.append({"name": "seeded_" + os.path.basename(d) + "_" + os.path.basename(pf)[:-5],
                              "checks": mm.get("detected_by") or [mm["property"]], "patch": pf})
